@@ -23,7 +23,7 @@ ASSUMPTIONS = [
 ]
 
 
-def _analyse(bodies, res_m1, res_m2, summaries):
+def _analyse(bodies, res_m1, res_m2, summaries, res_m7=None):
     for b in bodies:
         if not b.mir or not locks.has_locks(b):
             # a body without its own lock may still call a locking callee while
@@ -89,6 +89,33 @@ def _analyse(bodies, res_m1, res_m2, summaries):
                             res_m2.bad(b.path, okey + "+" + key, relfile(b.file), t["line"],
                                        "guards on two parameters (%s, %s) are held together without a dominating Arc::ptr_eq whose true edge leaves: aliasing arguments deadlock"
                                        % (okey, key))
+                        if res_m7 is not None:
+                            # lock order: both acquisitions are control-dependent on a comparison of the two mutexes' addresses
+                            ordered = False
+                            for ci, cblk in enumerate(b.blocks):
+                                for st in cblk["stmts"]:
+                                    if st["k"] != "assign" or st["rv"]["k"] != "bin" or st["rv"]["op"] not in ("Lt", "Le", "Gt", "Ge"):
+                                        continue
+                                    roots_ = []
+                                    for o in (st["rv"]["a"], st["rv"]["b"]):
+                                        if not mir.is_place_op(o):
+                                            continue
+                                        for d_ in defs.whole_defs(o[1][0]):
+                                            if d_[2] == "call" and hir.last(mir.callee_def(d_[3])) in ("as_ptr", "as_ref", "addr") and d_[3]["args"] and mir.is_place_op(d_[3]["args"][0]):
+                                                roots_.append(mir.origin_key(b, defs, d_[3]["args"][0][1]))
+                                            elif d_[2] == "assign" and d_[3]["rv"]["k"] in ("cast", "use", "rawptr", "ref"):
+                                                src = d_[3]["rv"].get("o") or ["cp", d_[3]["rv"].get("p")]
+                                                if mir.is_place_op(src):
+                                                    for d2 in defs.whole_defs(src[1][0]):
+                                                        if d2[2] == "call" and hir.last(mir.callee_def(d2[3])) in ("as_ptr",) and d2[3]["args"] and mir.is_place_op(d2[3]["args"][0]):
+                                                            roots_.append(mir.origin_key(b, defs, d2[3]["args"][0][1]))
+                                    if {x.split(".")[0] for x in roots_} == {okey.split(".")[0], key.split(".")[0]} and ci in dom[bi] and ci in dom[tok]:
+                                        ordered = True
+                            res_m7.inst("%s|%s then %s" % (b.path, okey, key), {"fn": b.path, "first": okey, "second": key, "line": t["line"], "ordered_by_address": ordered})
+                            if not ordered:
+                                res_m7.bad(b.path, "%s then %s" % (okey, key), relfile(b.file), t["line"],
+                                           "the mutexes of two different parameters are acquired in parameter order (%s, then %s while it is held): a thread evaluating the operation with the arguments swapped takes them in the opposite order and the two deadlock (`a == b` on one thread, `b == a` on another)"
+                                           % (okey, key))
             else:
                 # call to a crate-local function that locks one of its parameters
                 name = mir.callee(t)
@@ -345,14 +372,15 @@ def rules(ctx):
     m1 = RuleResult("C15.M1", "no mutex is acquired while a guard on the same mutex is live (direct or via callee summary)", floor=25)
     m2 = RuleResult("C15.M2", "two parameters' mutexes held together are proven distinct by a dominating Arc::ptr_eq", floor=2)
     summ = locks.lock_summaries(bodies)
-    _analyse(bodies, m1, m2, summ)
+    m7 = RuleResult("C15.M7", "two list / buffer mutexes held together are acquired in an order decided by their addresses (no lock-order inversion between threads)", floor=2)
+    _analyse(bodies, m1, m2, summ, m7)
     # anchors: the list comparison and concat bodies must exist
     for anchor in ("<value::list::ErasedList as std::cmp::PartialEq>::eq",
                    "<value::list::boundary::List<T> as std::cmp::PartialEq>::eq",
                    "value::list::ErasedList::concat"):
         if not F.has(anchor):
             m1.missing(anchor)
-    return [m1, m2, rule_m4(F), rule_m5(F), rule_m6(F)]
+    return [m1, m2, rule_m4(F), rule_m5(F), rule_m6(F), m7]
 
 
 def canary(C):
